@@ -278,6 +278,22 @@ def run(ck):
                              {"crystal": repr(crys), "chem": chem, "cutoff": cut, "Nthermo": Nth,
                               "thermo_A": {k: np.asarray(v).tolist() for k, v in th.items()}, "thermo_B": {k: np.asarray(v).tolist() for k, v in th_b.items()},
                               "first": [x.tolist() for x in R], "third": [x.tolist() for x in R3]}, key="c01-cache-hit")
+            # refining the Green-function mesh on the SAME calculator (documented: calc.GFcalc = calc.GFcalculator(N)) must give what a
+            # calculator constructed with that mesh gives - nothing cached for the old mesh may survive (first real-GF cases only)
+            if nreal <= 2 and d.N * d.N * M ** crys.dim <= 400:
+                try:
+                    d.GFcalc = d.GFcalculator(5)
+                    R5 = [np.array(x) for x in d.Lij(*args)]
+                    dfresh = vm.make(crys, chem, sl, jn, Nth, NGFmax=5)
+                    R5f = [np.array(x) for x in dfresh.Lij(*args)]
+                    e5 = max(np.abs(a - b).max() for a, b in zip(R5, R5f)) / max(np.abs(R5f[0]).max(), 1e-300)
+                    ck.case(key=("ngfmax", label, Nth), nontrivial=True, kind="GF-mesh-refined-on-same-calculator")
+                    if e5 > 1e-10:
+                        ck.violation("after calc.GFcalc = calc.GFcalculator(5) Lij differs from a calculator constructed with NGFmax=5 by %.3g relative" % e5,
+                                     {"crystal": repr(crys), "chem": chem, "cutoff": cut, "Nthermo": Nth, "thermo": {k: np.asarray(v).tolist() for k, v in th.items()},
+                                      "refined": [x.tolist() for x in R5], "fresh": [x.tolist() for x in R5f]}, key="c01-GFmesh-refined")
+                finally:
+                    d.GFcalc = d.GFcalculator(4); d.clearcache()
             dd = crys.dim
             M1, M2 = (M, M + 2) if dd == 3 else (M + 2, M + 6)
             if d.N * d.N * M2 ** dd > 6000: M1, M2 = M, M + 2
